@@ -10,7 +10,7 @@ TEXT = {
  "C01": ("Deterministic discrete-event simulation of 3 and 5 real RaftNode objects (capture transport, real WAL files) under seeded delivery/duplication/loss/reordering, election timeouts, proposals, partitions and crash/restart; an online monitor holds the committed (index -> term,payload) map, leader-per-term map and log-matching relation and checks every step.",
          "Held on the schedules explored; fixed membership, no snapshot install / compaction in the cluster simulation (those are driven on a single node by the C10 monitor); crashes are process kills at record boundaries (the WAL file keeps only the bytes that were on disk).",
          "runtime monitoring: online trace checker over a seeded fault-injecting cluster simulation of the real node"),
- "C02": ("Real TensorStore histories (all value kinds/key classes/sync modes) with crash images taken from what was really on disk: after every call, at sampled or all byte cuts inside each call's log growth, inside checkpoint() and WAL rotation via hook callbacks, partial snapshot temp files; every image is recovered with the real recover() and compared with the recorded live states S_lo..S_hi; recovered stores are written to and crashed again (3 crashes). Large (multi-write) records are part of the workload. A strace leg checks on the syscall log that every acknowledgement is preceded by fsync of the log; a second one kills a real checkpoint() at every write/rename/fsync and recovers.",
+ "C02": ("Real TensorStore histories (all value kinds/key classes/sync modes) with crash images taken from what was really on disk: after every call, at sampled or all byte cuts inside each call's log growth, inside checkpoint() and WAL rotation via hook callbacks, partial snapshot temp files; every image is recovered with the real recover() and compared with the recorded live states S_lo..S_hi; recovered stores are written to and crashed again (3 crashes). Large (multi-write) records and checkpoints to changing snapshot paths (also back to back without a write in between) are part of the workload. A strace leg checks on the syscall log that every acknowledgement is preceded by fsync of the log; a second one kills a real checkpoint() at every write/rename/fsync and recovers.",
          "Process-crash model (file = prefix of bytes written); power-loss reordering is out of reach, fsync ordering is checked instead. Byte cuts are sampled for large records.",
          "runtime monitoring: crash-image fault injection with record-and-compare oracle + syscall-order monitor (strace)"),
  "C03": ("Message-level simulation of one real DistributedTxCoordinator and 2-3 real TxParticipants with loss, duplication, reordering, timeouts, late/duplicate votes, concurrent transactions, messages of one transaction handled on several threads at once (duplicate PREPARE during COMMIT, PREPARE of another transaction during COMMIT or during a rollback), coordinator and participant restarts through their persisted state, and a coordinator log that refuses appends followed by a coordinator restart; clause-wise oracle over decisions (also across the restart), applied writes and pre-images.",
